@@ -8,6 +8,15 @@
 (* inside a response - or the caller calls Close).  Callers honour the     *)
 (* contract: a streaming command is consumed or closed.                    *)
 (*                                                                         *)
+(* The client's read deadline (imapclient/client.go read / readResponse,   *)
+(* fetch.go handleFetch): none while it waits for the first octet of a     *)
+(* response (a server may stay silent for as long as it likes, IDLE or     *)
+(* not), 30 s from the first octet of a response to its CRLF, 5 min while  *)
+(* a streamed literal is being consumed.  So a connection that stalls      *)
+(* INSIDE a response is given up by the client itself, whatever the caller *)
+(* does (a caller blocked in Collect or Wait cannot call Close); one that  *)
+(* stalls BETWEEN two responses is the caller's to close.                  *)
+(*                                                                         *)
 (* Safety : a command reports success only if its tagged completion line   *)
 (*          has been received completely (through its CRLF).               *)
 (* Liveness: after a fault every issued call returns, Close returns, the   *)
@@ -20,12 +29,13 @@ CONSTANT Layouts     \* set of reply-stream layouts the model is checked for
 VARIABLES layout,    \* layout[i]: offset of the reply stream at which command i's tagged line is complete
           delivered, \* bytes of the reply stream the client has received
           fault,     \* "none" | "eof" | "readerr" | "writeerr" | "stall"
+          inside,    \* the fault struck inside a response (at least one octet of it received, its CRLF not yet)
           issued,    \* number of commands issued so far (they are issued in order)
           result,    \* [1..NCmds -> "none" | "ok" | "err"]
           reader,    \* "run" | "exited"
           closeSt    \* "no" | "called" | "returned"   (Client.Close by the caller)
 
-vars == <<layout, delivered, fault, issued, result, reader, closeSt>>
+vars == <<layout, delivered, fault, inside, issued, result, reader, closeSt>>
 
 NCmds == Len(layout)
 EndOff == layout
@@ -35,7 +45,11 @@ Total == EndOff[NCmds]
 \* layouts of the bounded model: 3 commands whose completions end at offsets 2,4,6 / 1,2,5
 McLayouts == {<<2, 4, 6>>, <<1, 2, 5>>}
 
-Init == /\ layout \in Layouts /\ delivered = 0 /\ fault = "none" /\ issued = 0
+\* offsets known to lie between two responses: the start of the stream and the end of every tagged completion
+\* (untagged responses end at offsets the layout does not name: there both are possible)
+Boundary(d) == d = 0 \/ \E i \in 1..NCmds : EndOff[i] = d
+
+Init == /\ layout \in Layouts /\ delivered = 0 /\ fault = "none" /\ inside = FALSE /\ issued = 0
         /\ result = [i \in 1..NCmds |-> "none"] /\ reader = "run" /\ closeSt = "no"
 
 Returned(i) == i \in 1..NCmds /\ result[i] # "none"
@@ -45,41 +59,42 @@ LastOk == issued = 0 \/ (issued \in 1..NCmds /\ result[issued] = "ok")
 Issue == /\ issued < NCmds /\ closeSt = "no" /\ reader = "run"
          /\ LastOk                                      \* the previous call returned; a caller stops at the first error
          /\ issued' = issued + 1
-         /\ UNCHANGED <<layout, delivered, fault, result, reader, closeSt>>
+         /\ UNCHANGED <<layout, delivered, fault, inside, result, reader, closeSt>>
 
 Deliver == /\ fault = "none" /\ reader = "run" /\ issued > 0 /\ delivered < EndOff[issued]
            /\ delivered' = delivered + 1
-           /\ UNCHANGED <<layout, fault, issued, result, reader, closeSt>>
+           /\ UNCHANGED <<layout, fault, inside, issued, result, reader, closeSt>>
 
 Fault(k) == /\ fault = "none" /\ k \in {"eof", "readerr", "writeerr", "stall"}
             /\ fault' = k
+            /\ inside' \in (IF Boundary(delivered) THEN {FALSE} ELSE BOOLEAN)
             /\ UNCHANGED <<layout, delivered, issued, result, reader, closeSt>>
 
 \* a call returns success only with its completion fully received
 ReturnOk(i) == /\ i \in 1..issued /\ ~Returned(i) /\ delivered >= EndOff[i] /\ reader = "run"
                /\ result' = [result EXCEPT ![i] = "ok"]
-               /\ UNCHANGED <<layout, delivered, fault, issued, reader, closeSt>>
+               /\ UNCHANGED <<layout, delivered, fault, inside, issued, reader, closeSt>>
 
 \* the reader notices the fault (EOF, error, its own timeout inside a response, Close) and exits,
 \* failing every pending command
 ReaderExit == /\ reader = "run"
               /\ \/ fault \in {"eof", "readerr"}
-                 \/ fault = "stall" /\ (\E i \in 1..issued : ~Returned(i) /\ delivered > (IF i = 1 THEN 0 ELSE EndOff[i-1]))
+                 \/ fault = "stall" /\ inside          \* its own read deadline
                  \/ closeSt = "called"
                  \/ fault = "writeerr" /\ issued > 0 /\ ~Returned(issued)
               /\ reader' = "exited"
               /\ result' = [i \in 1..NCmds |-> IF i <= issued /\ result[i] = "none" THEN "err" ELSE result[i]]
-              /\ UNCHANGED <<layout, delivered, fault, issued, closeSt>>
+              /\ UNCHANGED <<layout, delivered, fault, inside, issued, closeSt>>
 
 \* a command issued after the reader is gone fails at once
 IssueDead == /\ issued < NCmds /\ reader = "exited" /\ closeSt = "no" /\ LastOk
              /\ issued' = issued + 1 /\ result' = [result EXCEPT ![issued + 1] = "err"]
-             /\ UNCHANGED <<layout, delivered, fault, reader, closeSt>>
+             /\ UNCHANGED <<layout, delivered, fault, inside, reader, closeSt>>
 
 CallClose == /\ closeSt = "no" /\ closeSt' = "called"
-             /\ UNCHANGED <<layout, delivered, fault, issued, result, reader>>
+             /\ UNCHANGED <<layout, delivered, fault, inside, issued, result, reader>>
 CloseReturns == /\ closeSt = "called" /\ reader = "exited" /\ closeSt' = "returned"
-                /\ UNCHANGED <<layout, delivered, fault, issued, result, reader>>
+                /\ UNCHANGED <<layout, delivered, fault, inside, issued, result, reader>>
 
 Next == Issue \/ IssueDead \/ Deliver \/ (\E k \in {"eof", "readerr", "writeerr", "stall"} : Fault(k))
         \/ (\E i \in 1..NCmds : ReturnOk(i)) \/ ReaderExit \/ CallClose \/ CloseReturns
@@ -90,10 +105,18 @@ Fairness == /\ WF_vars(ReaderExit) /\ WF_vars(CloseReturns) /\ WF_vars(\E i \in 
 
 Spec == Init /\ [][Next]_vars /\ Fairness
 
+\* the same system with a caller that never closes the client (it is blocked in one of the calls, or simply waits)
+NextNoClose == Next /\ closeSt' = "no"
+SpecNoClose == Init /\ [][NextNoClose]_vars
+               /\ WF_vars(ReaderExit) /\ WF_vars(\E i \in 1..NCmds : ReturnOk(i))
+
 \* ------------------------------------------------------------- properties (C10)
 TypeOK == delivered \in 0..Total /\ issued \in 0..NCmds
 NoSuccessWithoutCompletion == \A i \in 1..NCmds : result[i] = "ok" => delivered >= EndOff[i]
 AllReturnAfterFault ==
   (fault # "none") ~> (/\ \A i \in 1..issued : Returned(i)
                        /\ closeSt = "returned" /\ reader = "exited")
+\* a stall inside a response ends by the client's own timeout: every call returns although nobody closes the client
+StallInsideResponseTimesOut ==
+  (fault = "stall" /\ inside) ~> (reader = "exited" /\ \A i \in 1..issued : Returned(i))
 =============================================================================
